@@ -47,7 +47,8 @@ def run_path(I, contract, variant, mod, ci, fnode, cover_out):
         for r in contract.requires:
             I.assume(I.spec_bool(r, env0, None, mod))
         if cover_out is not None and not I.forced:
-            cover_out.append(solve.satisfiable(I.pc))
+            hint = list(contract.cover_hint(I, env0)) if contract.cover_hint else []
+            cover_out.append(solve.satisfiable(list(I.pc) + hint))
         old = I.snapshot(env0)
         I.old_env = old
         fref = FuncRef(mod, contract.key.split(":")[1], fnode, ci)
@@ -58,7 +59,8 @@ def run_path(I, contract, variant, mod, ci, fnode, cover_out):
         if contract.on_yield:
             def oy(I2, v, _c=contract, _f=fr0, _m=mod):
                 I2.ghost["_y"] = v
-                I2.spec_exec_in(_c.on_yield, I2.ghost, parent=_f, module=_m)
+                # ghost code at a yield sees the generator's locals (incl. the ghost loop index), then the entry values
+                I2.spec_exec_in(_c.on_yield, I2.ghost, parent=I2.root_frame or _f, module=_m)
             I.on_yield = oy
         I.frames.append(frame)
         raised = None
